@@ -275,7 +275,29 @@ def s_plus_seconds(eng, path, argv, callee):
     return const_obj(path.deref(argv[0]).scalar() + path.deref(argv[1]).scalar())
 
 
+def _opt_eq(path, a, b):
+    a, b = path.deref(a), path.deref(b)
+    da, db = _two(path, a), _two(path, b)
+    pa, pb = a.get(('as', 'Some')).get(0), b.get(('as', 'Some')).get(0)
+    return z3.And(da == db, z3.Or(da == 0, pa.scalar() == pb.scalar()))
+
+
+def s_opt_eq(eng, path, argv, callee):
+    return bool_obj(_opt_eq(path, argv[0], argv[1]))
+
+
+def s_opt_ne(eng, path, argv, callee):
+    return bool_obj(z3.Not(_opt_eq(path, argv[0], argv[1])))
+
+
+def s_opt_as_ref(eng, path, argv, callee):
+    return path.deref(argv[0])
+
+
 BASE = [
+    (r'<Option<.*> as PartialEq>::eq$|<std::option::Option<.*> as PartialEq>::eq$', s_opt_eq),
+    (r'<Option<.*> as PartialEq>::ne$|<std::option::Option<.*> as PartialEq>::ne$', s_opt_ne),
+    (r'Option::<.*>::as_ref$|Option::<.*>::as_deref$|Option::<.*>::cloned$', s_opt_as_ref),
     (r'Option::<.*>::get_or_insert$', s_get_or_insert),
     (r'Option::<.*>::insert$', s_opt_insert),
     (r'Option::<.*>::take$', s_opt_take),
